@@ -767,6 +767,33 @@ def gen_C17(seed, tier):
                              for k, b, p, t, R in zip(kinds2, bodies, pts, tg, Rs))
             body.append("call IK2 %s %d %s %s %d %s" % ("1/1000000000", 200, "1/100000000000000", "1/10000000000", len(bodies), cons2))
             body.append(body[-1].replace("call IK2 ", "call IK2T ", 1))
+        if i % 2 == 1:
+            # D20: orientation / full constraints whose target is EXACTLY a half turn away from the orientation at
+            # the initial guess: target = H R0, H = 2 n n^T - 1 (symmetric) for a rational unit axis n, R0 from the
+            # exact model at the initial configuration, so that R0 target^T = H.  A solver that maps half turns to
+            # a zero orientation error reports these as solved at once (caught by IK2.res).  Own random stream:
+            # the cases generated before this block keep their values.
+            hr = random.Random(seed * 100003 + i)
+            lines0 = ["case t", grav] + mb.lines + [mb.render_q(ents_init)] + ["call ORI %d 1" % b for b in bodies]
+            res0 = G.lean_query("\n".join(lines0) + "\n")
+            keys0 = sorted([k for k in res0 if k[1] == "ORI"], key=lambda k: int(k[0].split(".")[1]))
+            cons3 = []
+            for j, (b, p, t) in enumerate(zip(bodies, pts, tg)):
+                R0 = [G.parse_fr(x) for x in res0[keys0[j]]]
+                if hr.random() < 0.5:
+                    nax = [F(0)] * 3
+                    nax[hr.randint(0, 2)] = F(hr.choice([1, -1]))
+                else:
+                    u, v = (F(hr.randint(-3, 3), hr.choice([1, 2, 3])) for _ in range(2))
+                    d = 1 + u * u + v * v
+                    nax = [2 * u / d, 2 * v / d, (1 - u * u - v * v) / d]
+                    hr.shuffle(nax)
+                H = [2 * nax[r] * nax[c] - (1 if r == c else 0) for r in range(3) for c in range(3)]
+                Rt = [sum(H[3 * r + k] * R0[3 * k + c] for k in range(3)) for r in range(3) for c in range(3)]
+                cons3.append("%s %d %s %s %s 1" % (hr.choice(["o", "f"]), b, G.frs(p), G.frs(t), G.frs(Rt)))
+            body.append("call IK2 %s %d %s %s %d %s" % ("1/1000000000", 200, "1/100000000000000", "1/10000000000", len(bodies), " ".join(cons3)))
+            body.append(body[-1].replace("call IK2 ", "call IK2T ", 1))
+            g.stats["ik:half-turn-target"] += 1
         cid = "c17ik%s_%d" % ("reach" if reachable else "unreach", i)
         out.append("case " + cid); out.append(grav); out += mb.lines; out += body
         sigs.add((tuple(mb.kinds), reachable, tuple(kinds)))
@@ -1485,17 +1512,17 @@ PROPS = {
         "explanation": "theorems: code-shaped RNEA model = Newton-Euler specification (see RbdlProofs/Props/C01.lean); tie: InverseDynamics output vs exact model output (correspondence) and vs the first-principles jet specification (monitor)",
         "assumptions": COMMON_ASSUMPTIONS,
     },
-    "C02": {"gen": gen_C02, "rule": RULE_MODELS + "; calls: ForwardDynamics, CalcMInvTimesTau (flag set / cleared), ForwardDynamicsLagrangian x 4 solvers",
+    "C02": {"gen": gen_C02, "extra_props": ["C02Cap"], "rule": RULE_MODELS + "; calls: ForwardDynamics, CalcMInvTimesTau (flag set / cleared), ForwardDynamicsLagrangian x 4 solvers",
             "explanation": "certificate: inverse dynamics of the specification applied to the returned accelerations reproduces tau; H_spec * (M^-1 tau) = tau",
             "assumptions": COMMON_ASSUMPTIONS},
-    "C03": {"gen": gen_C03, "rule": RULE_MODELS + "; calls: CompositeRigidBodyAlgorithm (flag set / cleared), NonlinearEffects, CalcKineticEnergy, InverseDynamics, CalcMInvTimesTau",
+    "C03": {"gen": gen_C03, "extra_props": ["C03Cap"], "rule": RULE_MODELS + "; calls: CompositeRigidBodyAlgorithm (flag set / cleared), NonlinearEffects, CalcKineticEnergy, InverseDynamics, CalcMInvTimesTau",
             "explanation": "monitor: H = sum J^T M J from partial velocities of the jet specification; N = Newton-Euler at zero acceleration",
             "assumptions": COMMON_ASSUMPTIONS},
-    "C04": {"gen": gen_C04, "extra_props": ["GenLaws"], "rule": RULE_MODELS + "; body ids of every class (movable, virtual, fixed)", "explanation": "monitor: pose composition from the base outward",
+    "C04": {"gen": gen_C04, "extra_props": ["GenLaws", "C04Cap"], "rule": RULE_MODELS + "; body ids of every class (movable, virtual, fixed)", "explanation": "monitor: pose composition from the base outward",
             "assumptions": COMMON_ASSUMPTIONS},
-    "C05": {"gen": gen_C05, "rule": RULE_MODELS + "; zero- and garbage-initialised Jacobians", "explanation": "monitor: columns = first-order jets of the pose at unit generalized velocities",
+    "C05": {"gen": gen_C05, "extra_props": ["C05Cap"], "rule": RULE_MODELS + "; zero- and garbage-initialised Jacobians", "explanation": "monitor: columns = first-order jets of the pose at unit generalized velocities",
             "assumptions": COMMON_ASSUMPTIONS},
-    "C06": {"gen": gen_C06, "extra_props": ["GenLaws"], "rule": RULE_MODELS, "explanation": "monitor: first and second jets of point positions / orientation",
+    "C06": {"gen": gen_C06, "extra_props": ["GenLaws", "C06Cap"], "rule": RULE_MODELS, "explanation": "monitor: first and second jets of point positions / orientation",
             "assumptions": COMMON_ASSUMPTIONS},
     "C14": {"gen": gen_C14, "impl_monitor": impl_monitor_C14,
             "rule": "random construction sequences of 2-9 calls (AddBody with every joint kind, AppendBody, AddBodyCustomJoint, fixed bodies on any parent, named / unnamed) with one failing call (duplicate name on the movable / fixed / multi-DoF / custom path, or an undefined joint type) injected at a random position; structural dump and all numeric parameters after every call; accessors and a dynamics call at the end; distinct = distinct op-kind sequences",
@@ -1509,7 +1536,7 @@ PROPS = {
             "rule": "every compact operator of SpatialAlgebraOperators.h / Quaternion.h / rbdl_mathutils on random rational arguments (rational rotations, translations, inertias, unit quaternions incl. rotations by half a turn with trace -1, diagonally dominant shuffled systems for the Gauss solver); distinct = number of (operator, argument) pairs",
             "explanation": "46 theorems: each compact operator equals its 6x6 matrix definition, composition laws, power invariance, quaternion laws; correspondence: the C++ operator vs the Lean definition on explicit arguments",
             "assumptions": COMMON_ASSUMPTIONS},
-    "C08": {"gen": gen_C08,
+    "C08": {"gen": gen_C08, "extra_props": ["C08Phys", "C08PhysKkt"],
             "rule": "random models with contact sets (1-3 orthonormal normals per point, 1-2 points, movable / fixed bodies) and loop constraints placed on the manifold with exact kinematics (classes: predecessor = base; ball (3 translations); rotational axes with the predecessor frame away from the base origin; partial translations / frames separated along free axes), velocities projected exactly on G qdot = 0, Baumgarte on / off, external forces; methods direct / range-space / null-space x 3 solvers, Kokkevis for contact-only sets",
             "explanation": "certificates evaluated with the specification: H q'' + N = tau + G^T lambda, G q'' = gamma (second jet of phi incl. the Baumgarte term), agreement of the methods",
             "assumptions": COMMON_ASSUMPTIONS + ["constraint Jacobian smallest singular value >= 0.05 (checked exactly before a case is emitted)"]},
@@ -1517,11 +1544,11 @@ PROPS = {
             "rule": "same constraint-set grammar as C08; CalcConstraintsJacobian / PositionError / VelocityError, gamma from CalcConstrainedSystemVariables (flag set and cleared)",
             "explanation": "monitor: G = d(phi')/d(qdot), velocity error = phi', gamma = -phi''(qddot = 0) - Baumgarte, from second-order jets of the constraint functions phi on the pose specification",
             "assumptions": COMMON_ASSUMPTIONS},
-    "C10": {"gen": gen_C10,
+    "C10": {"gen": gen_C10, "extra_props": ["C08Phys", "C08PhysKkt"],
             "rule": "constraint sets of the finding-free classes (contacts, loops with predecessor = base, ball loops); per case: a feasible pre-impact velocity with v+ = 0, an arbitrary velocity with v+ = 0, prescribed v+; three methods x random solver",
             "explanation": "certificates with the specification: G qdot+ = v+, H (qdot+ - qdot-) + G^T Lambda = 0, agreement of the methods, kinetic energy not increased for v+ = 0, feasible velocity returned unchanged",
             "assumptions": COMMON_ASSUMPTIONS},
-    "C11": {"gen": gen_C11,
+    "C11": {"gen": gen_C11, "extra_props": ["C08Phys", "C08PhysKkt"],
             "rule": "constraint sets of the finding-free classes on fixed- and floating-base models; two random actuation maps per case with 1..nc unactuated coordinates; isConstrainedSystemFullyActuated, the relaxed operator always, the exact operator checked when G P^T has full column rank (exact rank over Q)",
             "explanation": "certificates with the specification: G qddot = gamma, tau zero on unactuated coordinates, H qddot + N = tau + G^T lambda, actuated accelerations reproduced by the exact operator; full-actuation test against the exact rank of G P^T",
             "assumptions": COMMON_ASSUMPTIONS},
@@ -1550,7 +1577,7 @@ PROPS = {
             "explanation": "theorem: call-granularity non-interference for a world with explicit globals (RbdlProofs/Props/C20.lean); tie: the writable symbols of the freshly compiled library and addons (nm) must equal the declared list tools/globals_expected.json; search: concurrent and interleaved runs vs solo runs, ThreadSanitizer in the thorough tier",
             "level_text": "partial proof: non-interference is a theorem for every schedule of calls and of per-instance micro-steps (RbdlProofs/Props/C20.lean) about a model whose only shared components are the declared globals; the frame conditions are tied to the compiled code by the symbol-table check on every run; instruction-level races, allocator and libc behaviour are outside the model and are only searched for (fresh-process references, threads, TSan)",
             "assumptions": ["the writable-symbol list extracted by nm is complete for static storage (function-local statics included)"]},
-    "C12": {"gen": gen_C12, "harness": "driver_bal",
+    "C12": {"gen": gen_C12, "extra_props": ["C12Cap"], "harness": "driver_bal",
             "extra_srcs": lambda: [os.path.join(os.environ.get("VERIF_REPO", "/repo"), "addons/balance/BalanceToolkit.cc")],
             "rule": RULE_MODELS + "; random contact plane (unit normal, point off the origin); balance addon: gravity opposing a random rational unit normal, plane below / through the mechanism, at rest / omega-small / eps = 0 variants, flag-cleared call on a poisoned workspace",
             "explanation": "monitor: definitions of mass, CoM, momentum, energies, ZMP on jets of the pose specification; foot-placement estimator: whole-body inertia / angular momentum about the CoM and about its ground projection from the definitions (monitor), foot-placement geometry, projections, Eigen solves, Eqn. 45 residual and the 20 derivative fields (first-order jets) as certificates on the implementation's outputs",
